@@ -134,7 +134,8 @@ def sheet_source(kids, tag):
             else:
                 out.append('@font-face{font-family:f%d}' % k['id'])
         elif k.get('removed'):
-            out.append('#b%d%s{}' % (k['id'], '::before' if t == 'content' else ''))
+            # the declaration without the image: an empty content list, no background / marker image
+            out.append('#b%d::before{content:""}' % k['id'] if t == 'content' else '#b%d{}' % k['id'])
         elif t == 'bg':
             out.append('#b%d{background-image:url("%s")}' % (k['id'], k['ref']))
         elif t == 'lsi':
@@ -764,3 +765,180 @@ def _matcher_rules(m):
         if v:
             return True
     return False
+
+
+# ------------------------------------------------------------------------------------------ dedicated probes
+
+def _replaced_or_text(document):
+    from weasyprint.formatting_structure import boxes
+    out = []
+
+    def w(b):
+        if isinstance(b, boxes.ReplacedBox):
+            out.append(['replaced', type(b.replacement).__name__])
+        if isinstance(b, boxes.TextBox):
+            out.append(['text', b.text])
+        for c in getattr(b, 'children', ()) or ():
+            w(c)
+    for p in document.pages:
+        w(p._page_box)
+    return out
+
+
+def probe(case):
+    """one hand-made situation per name; returns {bad: str|None, ...facts}.  `bad` describes how the property
+    fails on it (None = holds)."""
+    import gzip
+    install_audit()
+    from weasyprint import HTML
+    from weasyprint.urls import StreamingGzipFile
+    name = case['name']
+    rec = new_rec()
+    png = raster_bytes(5)
+    facts = {'name': name, 'bad': None}
+    opts = dict(case.get('options', {}))
+
+    def serve(table, default=None):
+        def f(url):
+            rec['calls'].append(url)
+            v = table.get(url, default)
+            if v is None:
+                raise FetchRaised('not served: ' + url)
+            v = v() if callable(v) else v
+            return dict(v)
+        return f
+
+    def run(html, fetcher, base='http://x/dir/doc.html'):
+        _AUDIT['events'] = []
+        stage = 'render'
+        with capture_logs() as logs:
+            try:
+                _AUDIT['stage'], _AUDIT['on'] = 'render', True
+                try:
+                    document = HTML(string=html, base_url=base, url_fetcher=fetcher).render(**opts)
+                finally:
+                    _AUDIT['on'] = False
+                facts['boxes'] = _replaced_or_text(document)
+                stage = 'write_pdf'
+                _AUDIT['stage'], _AUDIT['on'] = 'write_pdf', True
+                try:
+                    pdf = document.write_pdf(**opts)
+                finally:
+                    _AUDIT['on'] = False
+                facts['pdf'] = pdf_facts(pdf)
+            except BaseException as exc:   # noqa
+                _AUDIT['on'] = False
+                facts['exc'] = {'type': type(exc).__name__, 'msg': str(exc)[:200], 'stage': stage}
+        facts['calls'] = list(rec['calls'])
+        facts['logs'] = [l for l in logs.records if l[0] in ('WARNING', 'ERROR')][:6]
+        facts['audit_bad'] = judge_audit(_AUDIT['events'])
+
+    if name in ('lazy-local', 'lazy-local-redirect'):
+        ghost = 'file:///nonexistent-c20/dir/ghost.png'
+        if name == 'lazy-local':
+            run('<img src="%s" alt="A">' % ghost, serve({ghost: {'string': png, 'mime_type': 'image/png'}}))
+        else:
+            run('<img src="http://x/a.png" alt="A">',
+                serve({'http://x/a.png': {'string': png, 'mime_type': 'image/png', 'redirected_url': ghost}}))
+        if facts.get('exc'):
+            facts['bad'] = 'the image served by the fetcher is read again from the local path at %s: %s %s' % (
+                facts['exc']['stage'], facts['exc']['type'], facts['exc']['msg'])
+        elif facts['audit_bad']:
+            facts['bad'] = 'opened behind the fetcher: %s' % facts['audit_bad'][:2]
+        elif [7, 3] not in facts['pdf']['images']:
+            facts['bad'] = 'the fetched bytes are not the image of the PDF'
+    elif name == 'xhtml-image':
+        run('<p>before</p><img src="http://x/a.png" alt="ALT TEXT"><p>after</p>',
+            serve({'http://x/a.png': {'string': XHTML_404, 'mime_type': case.get('mime', 'text/html')}}))
+        if facts.get('exc'):
+            facts['bad'] = 'raised %s' % facts['exc']
+        elif ['text', 'ALT TEXT'] not in facts['boxes']:
+            facts['bad'] = 'an XHTML error page served for <img> is shown as an image (%s), the alt text is lost, logs: %s' % (
+                [b for b in facts['boxes'] if b[0] == 'replaced'], facts['logs'])
+        elif not facts['logs']:
+            facts['bad'] = 'not logged'
+    elif name == 'svg-style-import':
+        svg = (b'<svg xmlns="http://www.w3.org/2000/svg" width="10" height="10"><style>@import url(s.css); '
+               b'rect{fill:red}</style><rect width="5" height="5"/></svg>')
+        run('<img src="http://x/dir/a.svg" alt="ALT">',
+            serve({'http://x/dir/a.svg': {'string': svg, 'mime_type': 'image/svg+xml'},
+                   'http://x/dir/s.css': {'string': b'rect{fill:blue}', 'mime_type': 'text/css'}}))
+        if facts.get('exc'):
+            facts['bad'] = 'raised %s' % facts['exc']
+        elif ['replaced', 'SVGImage'] not in facts['boxes']:
+            facts['bad'] = 'an SVG whose <style> has an @import does not load at all: %s' % (facts['logs'],)
+        elif 'http://x/dir/s.css' not in facts['calls']:
+            facts['bad'] = 'the imported sheet is not requested from the fetcher'
+    elif name == 'svg-use-external':
+        svg = b'<svg xmlns="http://www.w3.org/2000/svg" width="10" height="10"><use href="o.svg#a"/></svg>'
+        other = b'<svg xmlns="http://www.w3.org/2000/svg"><rect id="a" width="5" height="5" fill="red"/></svg>'
+        run('<img src="http://x/dir/a.svg" alt="ALT">',
+            serve({'http://x/dir/a.svg': {'string': svg, 'mime_type': 'image/svg+xml'},
+                   'http://x/dir/o.svg#a': lambda: {'file_obj': RecFile(other, rec, 'o.svg'), 'mime_type': 'image/svg+xml'}}))
+        facts['closed'] = rec['closed']
+        if facts.get('exc'):
+            facts['bad'] = 'raised %s' % facts['exc']
+        elif 'http://x/dir/o.svg#a' in facts['calls'] and 'o.svg' not in rec['closed']:
+            facts['bad'] = 'external <use>: the fetcher is called directly, its file_obj is never closed, the answer is unusable and nothing is logged (%s)' % (facts['logs'],)
+    elif name == 'css-import-cycle':
+        run('<link rel=stylesheet href="http://x/a.css"><p>a</p>',
+            serve({}, default={'string': b'@import url(http://x/a.css); p{color:red}', 'mime_type': 'text/css'}))
+        if facts.get('exc'):
+            facts['bad'] = 'a sheet importing itself: %s out of %s' % (facts['exc']['type'], facts['exc']['stage'])
+        facts['calls'] = facts['calls'][:5]
+    elif name == 'gzip-truncated-body':
+        gz = gzip.compress(png)
+        run('<img src="http://x/a.png" alt="ALT">',
+            serve({'http://x/a.png': lambda: {'file_obj': StreamingGzipFile(io.BytesIO(gz[:30])), 'mime_type': 'image/png'}}))
+        if facts.get('exc'):
+            facts['bad'] = 'truncated gzip body: %s out of %s' % (facts['exc']['type'], facts['exc']['stage'])
+    elif name == 'damaged-image-body':
+        from PIL import Image
+        b = io.BytesIO()
+        img = Image.effect_noise((64, 64), 50).convert('RGB')
+        img.save(b, 'PNG' if case['fmt'] == 'png' else 'JPEG')
+        data = b.getvalue()
+        data = data[:len(data) * 6 // 10] if case['how'] == 'cut' else data[:120] + bytes(60) + data[180:]
+        run('<img src="http://x/a.img" alt="ALT" style="width:20px"><div style="background:url(http://x/a.img);height:9px"></div>',
+            serve({'http://x/a.img': {'string': data, 'mime_type': 'image/png'}}))
+        if facts.get('exc'):
+            facts['bad'] = 'damaged %s body with %s: %s' % (case['fmt'], opts, facts['exc'])
+        elif facts['audit_bad']:
+            facts['bad'] = 'opened behind the fetcher: %s' % facts['audit_bad'][:2]
+    elif name == 'redirected-sheet-base':
+        # the base of a redirected sheet is where it was found
+        run('<link rel=stylesheet href="http://x/dir/s.css"><div id=b1 style="height:5px"></div>',
+            serve({'http://x/dir/s.css': {'string': b'#b1{background:url(p.png)}', 'mime_type': 'text/css',
+                                          'redirected_url': 'http://other/deep/er/s.css'},
+                   'http://other/deep/er/p.png': {'string': png, 'mime_type': 'image/png'}}))
+        if facts.get('exc'):
+            facts['bad'] = 'raised %s' % facts['exc']
+        elif sorted(facts['calls']) != ['http://other/deep/er/p.png', 'http://x/dir/s.css']:
+            facts['bad'] = 'references of a redirected sheet are not resolved against redirected_url: %s' % facts['calls']
+    elif name == 'no-base-url':
+        run('<link rel=stylesheet href="s.css"><img src="p.png" alt="ALT"><style>@import "i.css"; #b{background:url(q.png)}</style>'
+            '<div id=b>a</div><img src="http://x/ok.png">',
+            serve({'http://x/ok.png': {'string': png, 'mime_type': 'image/png'}}), base=None)
+        if facts.get('exc'):
+            facts['bad'] = 'raised %s' % facts['exc']
+        elif facts['calls'] != ['http://x/ok.png']:
+            facts['bad'] = 'relative references without a base URL reach the fetcher: %s' % facts['calls']
+        elif sum(1 for _, t in facts['logs'] if 'Relative URI reference without a base URI' in t) < 3:
+            facts['bad'] = 'dropped relative references are not logged: %s' % facts['logs']
+    elif name == 'default-fetcher-not-used':
+        # a custom fetcher that fails for everything: nothing may fall back to urllib / files
+        run('<link rel=stylesheet href="file:///etc/hostname"><img src="file:///etc/passwd" alt=A>'
+            '<img src="http://127.0.0.1:9/x.png"><link rel=attachment href="file:///etc/hostname">'
+            '<style>@import "file:///etc/hostname";'
+            '@font-face{font-family:zz;src:url(file:///usr/share/fonts/truetype/dejavu/DejaVuSans.ttf)}'
+            '</style><p style="font-family:zz">a</p>', serve({}))
+        if facts.get('exc'):
+            facts['bad'] = 'raised %s' % facts['exc']
+        elif facts['audit_bad']:
+            facts['bad'] = 'opened behind the fetcher: %s' % facts['audit_bad'][:3]
+        elif len(facts['calls']) != 6:
+            facts['bad'] = 'expected 6 fetcher calls, got %s' % facts['calls']
+    else:
+        raise ValueError(name)
+    facts.pop('pdf', None)
+    return facts
